@@ -664,6 +664,7 @@ func (g Gateway) GetByIndexStream(in *hydrapb.GetByIndexStreamRequest, stream hy
 		// Bucket-routed: pull candidates from the auto-built index,
 		// then apply time-range, sort, paging, residual predicate.
 		candidates := collectBucketCandidates(swampInterface, plan.Hints)
+		candidates = dropWithoutBeaconTime(candidates, beaconType)
 		candidates = applyTimeRange(candidates, beaconType, fromTime, toTime)
 		sortCandidates(candidates, beaconType, order)
 		treasures = applyFromLimit(candidates, in.GetFrom(), in.GetLimit())
@@ -801,6 +802,7 @@ func (g Gateway) GetByIndexStreamFromMany(in *hydrapb.GetByIndexStreamFromManyRe
 
 			if plan.Mode != PlanModeBypass && bucketExecPreconditions(beaconType) {
 				candidates := collectBucketCandidates(swampInterface, plan.Hints)
+				candidates = dropWithoutBeaconTime(candidates, beaconType)
 				candidates = applyTimeRange(candidates, beaconType, fromTime, toTime)
 				sortCandidates(candidates, beaconType, order)
 				treasures = applyFromLimit(candidates, query.GetFrom(), query.GetLimit())
